@@ -86,7 +86,12 @@ func (Minter) CurrentPhase(params Params, currentBlock int64) (Phase, int) {
 // supply and inflation rate.
 func (m Minter) NextPhaseProvisions(totalSupply, excludeAmount sdkmath.Int, phase Phase) sdkmath.LegacyDec {
 	// calculate annual provisions as normal
-	annualProvisions := m.Inflation.MulInt(totalSupply.Sub(excludeAmount))
+	// nothing is provisioned when the excluded amount exceeds the supply
+	inflationBase := totalSupply.Sub(excludeAmount)
+	if inflationBase.IsNegative() {
+		inflationBase = sdkmath.ZeroInt()
+	}
+	annualProvisions := m.Inflation.MulInt(inflationBase)
 
 	// return this phase provisions according to the year coefficient
 	// ex.
